@@ -73,7 +73,7 @@ def _msg():
         "eol_mask": st.integers(0, 255),
         "parts": st.sampled_from([0, 1, 1, 2, 2]),
         "wire": st.sampled_from(["raw", "raw", "chunked"]),
-        "canon": st.sampled_from([True, False, False]),       # True: exactly the canonical framing field for wire/parts, "lines" ignored
+        "canon": st.sampled_from([True, True, False, False]),       # True: exactly the canonical framing field for wire/parts, "lines" ignored
         "lines": st.lists(_line(), min_size=0, max_size=3),
         "extra": st.sampled_from(EXTRAS),
         "extra_len": st.sampled_from(LEN_KEYS),
@@ -511,6 +511,8 @@ def execute(env, sc):
     seen = set()
     r.sub_evaluations = max(1, len(arrs))
     for a in arrs:
+        if r.violations:
+            break   # later arrivals of a desynchronised stream are consequences of the first disagreement
         t = a.msg.target
         if t in (b"<partial>", b"<bad>"):
             r.fail("upstream-bytes-that-are-not-a-request", "origin connection %d received %r" % (a.conn_id, (a.raw or a.msg.raw_head)[:200]))
@@ -554,7 +556,7 @@ def execute(env, sc):
                     t, len(a.msg.body), a.msg.body[:80], len(rm.body), stream[:1200]))
             else:
                 r.label("forwarded-incomplete-prefix")
-    for i in sorted(seen):
+    for i in sorted(seen) if not r.violations else []:
         missing = [j for j in range(i) if j not in seen]
         if missing:
             j = missing[0]
@@ -563,5 +565,6 @@ def execute(env, sc):
             break
     if ref and not seen:
         r.label("nothing-forwarded")
+    r.labels = sorted(set(r.labels))   # per-scenario presence, so gate fractions are fractions of scenarios
     env.health(r, relaxed)
     return r
